@@ -28,14 +28,17 @@ theorem setJSONOutput_only_from_main :
 
 theorem no_receiver_writes_in_server : Gen.receiverWrites = [] := by decide
 
-/-- the request path (`server`, `server/wrapped_http`, `prover`) declares no package-level variable
-at all.  A read-only table added there would break this without harm; the check then searches for
-an isolation failure with bursts of concurrent requests and reports the broken obligation if it
-finds none — the simple syntactic argument for "no shared mutable state" no longer applies
-(pools, caches and maps are mutated through method calls and aliases that `packageVarWrites`
-cannot see). -/
+/-- every package-level variable of the request path (`server`, `server/wrapped_http`, `prover`)
+— there is none on the pinned tree — is plain literal data: a basic literal or a slice/array
+literal of basic literals.  Together with `only_logger_is_written` (no function assigns to such a
+variable or to one of its elements) it is read-only.  A pool, cache, map, struct or computed value
+added there breaks this; the check then searches for an isolation failure with bursts of concurrent
+requests and the race detector, and reports the broken obligation if it finds none — the simple
+syntactic argument for "no shared mutable state" no longer applies (such values are mutated through
+method calls and aliases that `packageVarWrites` cannot see). -/
 theorem no_globals_on_request_path :
-    (Gen.packageVars.filter fun v => v.1 == "server" || v.1 == "prover" || v.1 == "wrapped_http") = [] := by decide
+    (Gen.packageVarKinds.filter fun v =>
+      (v.1 == "server" || v.1 == "prover" || v.1 == "wrapped_http") && v.2.2 != "literal") = [] := by decide
 
 end Smtb.Properties.C13Facts
 
